@@ -317,7 +317,54 @@ func genDivision(r *hx.RNG, tier string) (u, v []decimal.Word, cls string) {
 	if r.Chance(15) && n < 100 {
 		n = r.Range(100, 230) // recursive division
 	}
-	switch r.Intn(8) {
+	switch r.Intn(10) {
+	case 8: // even-length divisor of 100+ words, dividend exactly 1.5 times as long, words from the edge set only:
+		// the lower quotient block of the recursive division is computed with the tightest bound on its estimate
+		n = 2 * r.Range(50, 115)
+		edge := func(k int) []decimal.Word {
+			w := make([]decimal.Word, k)
+			for i := range w {
+				w[i] = decimal.Word([]uint64{0, wb - 1, 1, wb / 2}[r.Intn(4)])
+				if r.Chance(8) {
+					w[i] = decimal.Word(r.U64() % wb)
+				}
+			}
+			if w[k-1] == 0 {
+				w[k-1] = 1
+			}
+			return w
+		}
+		v = edge(n)
+		u = edge(n + n/2 + []int{0, 0, 0, 1, -1}[r.Intn(5)])
+		return u, v, "recursive-lower-block-edge-words"
+	case 7: // the final (lower) block of a recursive division with the largest possible over-estimate:
+		// minimal high half (base/2, zeros), maximal low half (all nines), quotient of all nines
+		n = 2 * r.Range(50, 100)
+		B := n / 2
+		v = make([]decimal.Word, n)
+		for i := 0; i < B; i++ {
+			v[i] = decimal.Word(wb - 1)
+		}
+		v[n-1] = decimal.Word(wb/2 + r.U64()%3)
+		if r.Chance(30) {
+			v[B+r.Intn(B-1)] = decimal.Word(r.U64() % 5)
+		}
+		ql := B
+		if r.Chance(25) {
+			ql = B - r.Range(0, 2)
+		}
+		q := make([]decimal.Word, ql)
+		for i := range q {
+			q[i] = decimal.Word(wb - 1 - r.U64()%2)
+		}
+		ub := new(big.Int).Mul(wordsToBig(q), wordsToBig(v))
+		switch r.Intn(3) {
+		case 0:
+			ub.Add(ub, new(big.Int).Sub(wordsToBig(v), big.NewInt(1)))
+		case 1:
+			ub.Add(ub, wordsToBig(genWords(r, r.Range(1, n-1))))
+		}
+		return bigToWords(ub), v, "recursive-final-block"
 	case 6: // first block of a recursive division leaves a zero top remainder: the block quotient must be corrected
 		n = r.Range(100, 180)
 		B := n / 2
